@@ -18,7 +18,7 @@ PROPERTY = "C09"
 BUDGET = {"quick": {"runs": 480, "timeout": 150.0}, "thorough": {"runs": 16000, "timeout": 300.0}}
 LEVEL = "exploration"
 
-OPS = ["average", "average", "average_split", "average_split", "fsc_halfmaps", "group_average", "group_average_split", "batch_parts"]
+OPS = ["average", "average", "average_split", "average_split", "fsc_halfmaps", "group_average", "group_average_split", "batch_parts", "average_shape"]
 
 
 def gen_schedule(rng):
@@ -80,8 +80,14 @@ def generate(seed: int, tier: str):
         name = rng.choice(OPS)
         op = {"op": name}
         if "split" in name or name == "fsc_halfmaps":
-            op["n_set"] = rng.randint(1, 4)
-            op["seed"] = rng.choice([0, 1, rng.randrange(1000)])
+            # few distinct (seed, n_set) pairs, so that consecutive operations of one run often ask for the same split
+            op["n_set"] = rng.choice([1, 1, 2, 2, 3, 4])
+            op["seed"] = rng.choice([0, 0, 1, rng.randrange(1000)])
+        if name == "average_shape":
+            # an explicit output_shape that differs from the loader's own, on the whole loader or on its first molecule only
+            op["delta"] = rng.choice([[1, 0, 0], [0, -1, 1], [2, 2, 2], [-1, -1, -1]])
+            op["head"] = rng.choice([None, 1, 1, 2])
+            op["split"] = rng.random() < 0.3
         if name == "fsc_halfmaps":
             op["zero_norm"] = rng.random() < 0.5
         ops.append(op)
@@ -91,7 +97,8 @@ def generate(seed: int, tier: str):
 
 # ------------------------------------------------------------------------------------------
 class Obj:
-    pass
+    kind = "other"
+    box = None
 
 
 def build(w, eager=False):
@@ -103,6 +110,7 @@ def build(w, eager=False):
         world = C.build_world(ws)
         o = Obj()
         o.loader, o.n, o.offsets, o.tomos = world.loader, sum(w["n_mol"]), None, world.tomos
+        o.kind, o.box = "random", tuple(w["box"])
         o.parts = [(world.tomos[t], world.mols[t]) for t in range(w["n_tomo"])]  # independent model of the batch
         if w.get("history"):
             import polars as pl
@@ -204,6 +212,15 @@ def run_op(op, o):
         return dict(ld.groupby("g").average())
     if k == "group_average_split":
         return dict(ld.groupby("g").average_split(n_set=op["n_set"], seed=op["seed"], squeeze=False))
+    if k == "average_shape":
+        if o.kind != "random":
+            return {"skipped": True}
+        shape = tuple(max(3, b + d) for b, d in zip(o.box, op["delta"]))
+        sub = ld if op["head"] is None else ld.head(op["head"])
+        out = {"shape": list(shape), "avg": sub.average(output_shape=shape), "stack": np.asarray(sub.asnumpy(output_shape=shape), dtype=np.float64)}
+        if op["split"] and sub.count() >= 2:
+            out["split"] = sub.average_split(n_set=1, seed=0, squeeze=False, output_shape=shape)
+        return out
     if k == "batch_parts":
         if not hasattr(ld, "loaders"):
             return {"avg": ld.average(), "parts": None}
@@ -359,6 +376,18 @@ def execute(sc):
                     rows = decode_onehot(v_s, o.offsets, name)
                     if rows != set(range(n)):
                         raise V("not-a-mean", name, f"average contains molecules {sorted(rows)} of {n}")
+            elif name == "average_shape":
+                if v_s.get("skipped"):
+                    continue
+                st_ = v_s["stack"]
+                if tuple(v_s["avg"].shape) != tuple(v_s["shape"]) or st_.shape[1:] != tuple(v_s["shape"]):
+                    raise V("not-a-mean", name, f"average(output_shape={v_s['shape']}) returned shape {v_s['avg'].shape}, asnumpy {st_.shape}")
+                if max_abs_diff(v_s["avg"], st_.mean(axis=0)) > _mean_tol(st_.shape[0], st_):
+                    raise V("not-a-mean", name, f"average(output_shape={v_s['shape']}) of {st_.shape[0]} molecule(s) is not the mean of the subtomograms loaded with that shape")
+                if "split" in v_s:
+                    sp = np.asarray(v_s["split"], dtype=np.float64)
+                    if sp.shape != (1, 2) + tuple(v_s["shape"]):
+                        raise V("not-a-mean", name, f"average_split(output_shape=...) returned shape {sp.shape}")
             elif name == "batch_parts":
                 if getattr(o, "parts", None) and w.get("loader") == "batch":
                     # independent expectation: one plain loader per registered tomogram (numpy image), count-weighted
